@@ -1,7 +1,7 @@
 #!/bin/bash
 # False-alarm regression: apply each behaviour-preserving refactor of refactors/<id>/patch.diff in a scratch worktree of /repo
 # and run EVERY quick check against it (MSMART_REPO); none may exit non-zero.  /repo itself is not touched.
-#   usage: [ONLY="S11 S12"] tools/refactor_eval.sh [worktree, default /tmp/wt_eval]
+#   usage: [ONLY="S11 S12"] [PROPS="C04 C07"] tools/refactor_eval.sh [worktree, default /tmp/wt_eval]
 cd "$(dirname "$0")/.."
 WT=${1:-/tmp/wt_eval}
 [ -d "$WT" ] || git -C /repo worktree add --detach "$WT" HEAD -q
@@ -14,7 +14,7 @@ for d in refactors/*/; do
   git -C "$WT" checkout -q -- . ; git -C "$WT" clean -fdq
   if ! git -C "$WT" apply "$PWD/$d/patch.diff" 2>/dev/null; then echo "$r: patch does not apply (tree moved on)"; continue; fi
   bad=""
-  for p in C01 C02 C03 C04 C05 C06 C07 C08 C09 C10 C11 C12 C13 C14 C15 C16 C17 C18 C19 C20; do
+  for p in ${PROPS:-C01 C02 C03 C04 C05 C06 C07 C08 C09 C10 C11 C12 C13 C14 C15 C16 C17 C18 C19 C20}; do
     ./check $p --tier quick >/tmp/refactor_eval_last.txt 2>&1 || { bad="$bad $p"; cp /tmp/refactor_eval_last.txt /tmp/refactor_fail_${r}_${p}.txt; }
   done
   echo "$r: alarms:[$bad ]"; [ -n "$bad" ] && fail=1
